@@ -401,7 +401,16 @@ pub fn check_compile_load(text: &str) -> (Verdict, bool) {
         m.load(bc.clone());
         let m2 = Machine::new_with_program(MachineConfig::default(), bc.clone());
         let listing = format!("{}", bc);
-        (m.state(), m2.state(), listing.len())
+        // "loaded into a machine": also one that ran other programs before (limits of every kind left behind)
+        let mut states = vec![];
+        for used in used_machines() {
+            let mut u = used.clone();
+            u.load(bc.clone());
+            states.push(u.state());
+            // and once more on top of itself
+            u.load(bc.clone());
+        }
+        (m.state(), m2.state(), listing.len(), states)
     });
     match r {
         Ok(_) => (Verdict::Pass, true),
@@ -418,6 +427,38 @@ pub fn check_compile_load(text: &str) -> (Verdict, bool) {
             (Verdict::Fail(format!("{}:shape={}", panic_signature(&p), shape), format!("accepted program {} crashes compile/load: {}", short(text), p)), true)
         }
     }
+}
+
+/// machines with a history: programs of several sizes with explicit, AUTO and NOSET limits loaded and run
+fn used_machines() -> &'static Vec<Machine> {
+    static M: std::sync::OnceLock<Vec<Machine>> = std::sync::OnceLock::new();
+    M.get_or_init(|| {
+        let progs = [
+            "#! mrasm\n*STACKSIZE 32\nL:\n INC R0\n ST (0xFF), R0\n JR L\n",
+            "#! mrasm\n*PROGRAMSIZE 200\n*STACKSIZE 0\n LDSP 0xEF\n.ORG 100\n NOP\n STOP\n",
+            "#! mrasm\n*PROGRAMSIZE 0\n*STACKSIZE 64\n NOP\n",
+            "#! mrasm\n*STACKSIZE NOSET\n*PROGRAMSIZE NOSET\n.ORG 239\n STOP\n",
+            "#! mrasm\n*PROGRAMSIZE 255\n.BYTE 240\n",
+        ];
+        let mut v = vec![];
+        let mut chain = Machine::new(MachineConfig::default());
+        for p in progs {
+            let bc = Translator::compile(&AsmParser::parse(p).expect("fixed program"));
+            let mut m = Machine::new(MachineConfig::default());
+            m.load(bc.clone());
+            for _ in 0..40 {
+                m.trigger_key_clock();
+            }
+            v.push(m);
+            // one machine that saw all of them in a row
+            chain.load(bc);
+            for _ in 0..25 {
+                chain.trigger_key_clock();
+            }
+        }
+        v.push(chain);
+        v
+    })
 }
 
 // ---------------------------------------------------------------------------------------------
